@@ -216,3 +216,65 @@ func inferPatterns(body, sym string) []string {
 	}
 	return pats
 }
+
+// `maintains E` on a function-literal contract (<function>$<k>): E is an
+// invariant of the variables the literal shares with its enclosing function.
+// The literal is verified to preserve it (assumed at its entry, checked at
+// every return); where the literal is handed to code that is not executed
+// symbolically, E must hold before the call and may be assumed after it, however
+// often the callee ran the literal.
+func (v *FnV) maintainsClauses(fc *FuncContract) []*Clause {
+	var out []*Clause
+	if fc == nil {
+		return nil
+	}
+	for n, l := range fc.Extra["maintains"] {
+		r := strings.TrimSpace(l)
+		label := fmt.Sprint(n + 1)
+		if strings.HasPrefix(r, "[") {
+			if k := strings.Index(r, "]"); k > 0 {
+				label = r[1:k]
+				r = strings.TrimSpace(r[k+1:])
+			}
+		}
+		e, err := parseSpec(r)
+		if err != nil {
+			v.specError(&Clause{Text: r, Line: fc.Where}, err)
+			continue
+		}
+		out = append(out, &Clause{Kind: "maintains", Label: label, Expr: e, Text: r, Line: fc.Where})
+	}
+	return out
+}
+
+// closureInvariant handles one closure argument around an unexecuted call:
+// phase "before" emits the obligations, phase "after" assumes the invariant.
+func (v *FnV) closureInvariant(st *State, a Value, phase string) {
+	cr, ok := v.closures[a.S]
+	if !ok {
+		return
+	}
+	fc := v.e.cs.Funcs[v.e.litName[cr.lit]]
+	cls := v.maintainsClauses(fc)
+	if len(cls) == 0 {
+		return
+	}
+	sc := &Scope{v: v, vars: map[string]Value{}, pkg: v.fr().pkg, pos: cr.lit.Pos(), old: v.entry, oldVars: v.entryVars()}
+	for _, cl := range cls {
+		if phase == "before" {
+			s2 := st.fork()
+			val, err := v.spec(s2, cl.Expr, sc)
+			if err != nil {
+				v.specError(cl, err)
+				continue
+			}
+			v.oblige(s2, "maintains-init:"+cl.Label, posNode(cr.lit.Pos()), 0, val.S, "closure invariant holds before the closure is handed over: "+cl.Text)
+		} else {
+			val, err := v.spec(st, cl.Expr, sc)
+			if err == nil {
+				st.assume(val.S)
+				v.c.trusted[v.name+": the unexecuted callee changes the state of the closure invariant `"+cl.Text+"` only by running the closure"] = true
+			}
+		}
+	}
+}
